@@ -45,6 +45,9 @@ def gaussian(birth, pers, mu=None, sigma=None):
         mu = np.array([0.0, 0.0], dtype=np.float64)
     if sigma is None:
         sigma = np.array([[1.0, 0.0], [0.0, 1.0]], dtype=np.float64)
+    elif np.ndim(sigma) == 0:
+        # a single number: the equal variances of an isotropic distribution
+        sigma = np.array([[sigma, 0.0], [0.0, sigma]], dtype=np.float64)
 
     if sigma[0][1] == 0.0:
         return sbvn_cdf(birth, pers,
